@@ -155,6 +155,9 @@ struct Case {
     /// harness replaces the descriptor of the call's temp file by `/dev/full` (every further write fails with
     /// ENOSPC — a disk that fills up in the middle of the download) and lets the server go on
     wf: Option<usize>,
+    /// with `wf`: the fault is TRANSIENT — only the writes of piece `j` fail (the server waits again after piece
+    /// `j`; the original descriptor is put back unless the implementation has given the temp file up meanwhile)
+    wft: bool,
 }
 
 fn parse_resp(s: &str) -> Option<RespSpec> {
@@ -196,7 +199,15 @@ fn parse_case(case: &str) -> Option<Case> {
     let mut f: Vec<&str> = case.split(' ').filter(|s| !s.is_empty()).collect();
     // optional trailing fields, in this order: `file:<kind>` `wf:<j>`
     let mut wf: Option<usize> = None;
+    let mut wft = false;
     if let Some(j) = f.last().and_then(|l| l.strip_prefix("wf:")) {
+        let j = match j.strip_suffix('t') {
+            Some(j) => {
+                wft = true;
+                j
+            }
+            None => j,
+        };
         wf = Some(j.parse().ok()?);
         f.pop();
     }
@@ -241,7 +252,11 @@ fn parse_case(case: &str) -> Option<Case> {
     if wf.is_some() && (race || drop != "-" || fs != "-" || resps.is_empty() || resps[0].status >= 400 || ["valid", "validurl", "corrupt", "trunc", "local"].contains(&pre.as_str())) {
         return None;
     }
-    Some(Case { m, pre, fs, resps, drop, race, file, wf })
+    // a transient fault is placed on a piece that certainly causes a write: whole lines (`l`), not the last position
+    if wft && resps[0].split != "l" {
+        return None;
+    }
+    Some(Case { m, pre, fs, resps, drop, race, file, wf, wft })
 }
 fn show_case(c: &Case) -> String {
     format!(
@@ -253,7 +268,7 @@ fn show_case(c: &Case) -> String {
         c.drop,
         if c.race { 1 } else { 0 },
         if c.file == "sym" { String::new() } else { format!(" file:{}", c.file) }
-    ) + &c.wf.map(|j| format!(" wf:{j}")).unwrap_or_default()
+    ) + &c.wf.map(|j| format!(" wf:{j}{}", if c.wft { "t" } else { "" })).unwrap_or_default()
 }
 
 // ------------------------------------------------------------------------------------------ bodies
@@ -471,11 +486,22 @@ struct Script {
     pace_us: u64,
     pieces: Vec<Vec<u8>>,
     gate: Option<Arc<AtomicBool>>,
-    /// wait (until `hold_gate` opens) after this many pieces; `pieces.len()` = before the end of the response
-    hold_after: Option<usize>,
-    hold_gate: Arc<AtomicBool>,
+    /// hold points
+    holds: Vec<Hold>,
+}
+
+/// the server waits (until `gate` opens) after `at` pieces; `pieces.len()` = before the end of the response
+#[derive(Clone)]
+struct Hold {
+    at: usize,
+    gate: Arc<AtomicBool>,
     /// set by the server when it has reached the hold point
     holding: Arc<AtomicBool>,
+}
+impl Hold {
+    fn new(at: usize) -> Hold {
+        Hold { at, gate: Arc::new(AtomicBool::new(false)), holding: Arc::new(AtomicBool::new(false)) }
+    }
 }
 
 struct Shared {
@@ -539,10 +565,10 @@ fn serve_one(mut s: TcpStream, shared: &Shared) {
     }
     let _ = s.flush();
     let hold = |at: usize| {
-        if sc.hold_after == Some(at) {
-            sc.holding.store(true, Ordering::SeqCst);
+        for h in sc.holds.iter().filter(|h| h.at == at) {
+            h.holding.store(true, Ordering::SeqCst);
             let t0 = std::time::Instant::now();
-            while !sc.hold_gate.load(Ordering::SeqCst) && t0.elapsed() < Duration::from_secs(25) {
+            while !h.gate.load(Ordering::SeqCst) && t0.elapsed() < Duration::from_secs(25) {
                 std::thread::sleep(Duration::from_micros(100));
             }
         }
@@ -743,7 +769,9 @@ fn permissions_bite() -> bool {
 }
 
 extern "C" {
+    fn dup(fd: i32) -> i32;
     fn dup2(oldfd: i32, newfd: i32) -> i32;
+    fn close(fd: i32) -> i32;
 }
 
 /// the open descriptor of a file below `tmp` (the call's `NamedTempFile`) and the file's current length
@@ -761,15 +789,39 @@ fn temp_fd_in(tmp: &Path) -> Option<(i32, usize)> {
     None
 }
 
+static FD_LOCK: Mutex<()> = Mutex::new(());
+
 /// From now on every write through `fd` fails with ENOSPC: the descriptor is atomically replaced by one of
 /// `/dev/full` (no descriptor number is freed, so nothing else in this process can be affected; the
-/// `NamedTempFile` keeps its path and still removes the file when dropped).
-fn replace_by_dev_full(fd: i32) {
+/// `NamedTempFile` keeps its path and still removes the file when dropped). With `keep`, a duplicate of the
+/// original descriptor is returned (for `restore_fd`), else -1.
+fn replace_by_dev_full(fd: i32, keep: bool) -> i32 {
     use std::os::unix::io::AsRawFd;
+    let _g = FD_LOCK.lock().unwrap();
+    let mut saved = -1;
     if let Ok(full) = std::fs::OpenOptions::new().write(true).open("/dev/full") {
         unsafe {
+            if keep {
+                saved = dup(fd);
+            }
             dup2(full.as_raw_fd(), fd);
         }
+    }
+    saved
+}
+
+/// end of a transient fault: put the original descriptor back (`put_back`, only if `fd` still is the /dev/full
+/// descriptor the harness installed — the implementation may have closed it) and close the duplicate
+fn restore_fd(fd: i32, saved: i32, put_back: bool) {
+    if saved < 0 {
+        return;
+    }
+    let _g = FD_LOCK.lock().unwrap();
+    unsafe {
+        if put_back && std::fs::read_link(format!("/proc/self/fd/{fd}")).map(|t| t == Path::new("/dev/full")).unwrap_or(false) {
+            dup2(saved, fd);
+        }
+        close(saved);
     }
 }
 
@@ -1021,6 +1073,10 @@ fn prepare(c: &Case, m: &Mod) -> Option<Prepared> {
         ps.push(pieces(&b, r.cut, &r.split));
         bodies.push(b);
     }
+    // a transient write fault needs a piece to fail on
+    if c.wft && c.wf.map(|j| j >= ps[0].len()).unwrap_or(true) {
+        return None;
+    }
     Some(Prepared { bodies, pieces: ps })
 }
 
@@ -1063,8 +1119,9 @@ fn check_midflight(obs: &mut RunObs, d: &Dirs, prep: &Prepared, at: &str) {
 fn run_once(c: &Case, m: &Mod, prep: &Prepared, drop_at: Option<usize>) -> RunObs {
     let d = setup_dirs(c, m);
     let gate = Arc::new(AtomicBool::new(false));
-    let hold_gate = Arc::new(AtomicBool::new(false));
-    let holding = Arc::new(AtomicBool::new(false));
+    let wf_j = c.wf.map(|j| j.min(prep.pieces[0].len())).unwrap_or(0);
+    let hold1 = Hold::new(wf_j);
+    let hold2 = Hold::new(wf_j + 1);
     let server = worker_server();
     let rid = COUNTER.fetch_add(1, Ordering::Relaxed);
     for (i, r) in c.resps.iter().enumerate() {
@@ -1079,9 +1136,11 @@ fn run_once(c: &Case, m: &Mod, prep: &Prepared, drop_at: Option<usize>) -> RunOb
                 pace_us: r.pace_us,
                 pieces: prep.pieces[i].clone(),
                 gate: if c.race && i == 1 { Some(gate.clone()) } else { None },
-                hold_after: if i == 0 { c.wf.map(|j| j.min(prep.pieces[0].len())) } else { None },
-                hold_gate: hold_gate.clone(),
-                holding: holding.clone(),
+                holds: match (i, c.wf, c.wft) {
+                    (0, Some(_), false) => vec![hold1.clone()],
+                    (0, Some(_), true) => vec![hold1.clone(), hold2.clone()],
+                    _ => vec![],
+                },
             }),
         );
     }
@@ -1135,7 +1194,9 @@ fn run_once(c: &Case, m: &Mod, prep: &Prepared, drop_at: Option<usize>) -> RunOb
             });
             let mut polls = 0usize;
             let mut hold_polls = 0usize;
-            let wf_j = c.wf.map(|j| j.min(prep.pieces[0].len())).unwrap_or(0);
+            let mut stage = 0u8;
+            let mut saved_fd: i32 = -1;
+            let mut faulted_fd: i32 = -1;
             let wf_expect: Option<usize> = if c.file != "sym" && c.wf.is_some() { Some(prep.pieces[0][..wf_j].iter().map(|p| p.len()).sum()) } else { None };
             let wf_only_end = c.file != "sym" && wf_j == prep.pieces[0].len();
             let res = rt.block_on(std::future::poll_fn(|cx| {
@@ -1150,9 +1211,9 @@ fn run_once(c: &Case, m: &Mod, prep: &Prepared, drop_at: Option<usize>) -> RunOb
                         if obs.midflight.len() < 4 {
                             check_midflight(&mut obs, &d, prep, &format!("suspended after poll {polls}"));
                         }
-                        if c.wf.is_some() && !hold_gate.load(Ordering::SeqCst) {
-                            // the server is waiting at the hold point: make every further write to the temp file fail
-                            if holding.load(Ordering::SeqCst) {
+                        if c.wf.is_some() && stage < 2 {
+                            if stage == 0 && hold1.holding.load(Ordering::SeqCst) {
+                                // the server is waiting at the hold point: make the writes to the temp file fail
                                 hold_polls += 1;
                                 if let Some((fd, len)) = temp_fd_in(&d.tmp) {
                                     // Wait until the client has taken in what was sent before the hold. The opaque path
@@ -1166,14 +1227,33 @@ fn run_once(c: &Case, m: &Mod, prep: &Prepared, drop_at: Option<usize>) -> RunOb
                                         // (never inject late into an opaque download that is only waiting for the end of
                                         // the response: whether a write is still to come would be a race)
                                         if ready || !wf_only_end {
-                                            replace_by_dev_full(fd);
+                                            saved_fd = replace_by_dev_full(fd, c.wft);
+                                            faulted_fd = fd;
                                             obs.injected = Some(len);
                                         }
-                                        hold_gate.store(true, Ordering::SeqCst);
+                                        hold1.gate.store(true, Ordering::SeqCst);
+                                        stage = if c.wft && obs.injected.is_some() { 1 } else { 2 };
+                                        hold_polls = 0;
                                     }
                                 } else if hold_polls > 400 {
                                     // no temp file (it could not be created): nothing to inject
-                                    hold_gate.store(true, Ordering::SeqCst);
+                                    hold1.gate.store(true, Ordering::SeqCst);
+                                    stage = 2;
+                                }
+                            } else if stage == 1 && hold2.holding.load(Ordering::SeqCst) {
+                                // transient fault: piece j has been sent. A correct implementation gives the temp file up
+                                // at the failing write (the tmp directory empties); otherwise — after a generous
+                                // time — the original descriptor is put back, so that later writes succeed again.
+                                hold_polls += 1;
+                                let gone = std::fs::read_dir(&d.tmp).map(|mut r| r.next().is_none()).unwrap_or(true);
+                                if gone || hold_polls > 2000 {
+                                    restore_fd(faulted_fd, saved_fd, !gone);
+                                    saved_fd = -1;
+                                    if !gone {
+                                        obs.midflight.push(("temp-file-kept-after-failed-write".into(), format!("a write to the temp file failed (ENOSPC) {} polls ago and the file is still in the tmp directory", hold_polls)));
+                                    }
+                                    hold2.gate.store(true, Ordering::SeqCst);
+                                    stage = 2;
                                 }
                             }
                             // nothing arrives while the server waits: come back by timer
@@ -1188,6 +1268,7 @@ fn run_once(c: &Case, m: &Mod, prep: &Prepared, drop_at: Option<usize>) -> RunOb
                 }
             }));
             obs.polls = polls;
+            restore_fd(faulted_fd, saved_fd, false);
             match res {
                 None => {
                     drop(fut.take());
@@ -1253,7 +1334,8 @@ fn run_once(c: &Case, m: &Mod, prep: &Prepared, drop_at: Option<usize>) -> RunOb
         }
         obs.midflight.push(("panic".into(), msg));
     }
-    hold_gate.store(true, Ordering::SeqCst);
+    hold1.gate.store(true, Ordering::SeqCst);
+    hold2.gate.store(true, Ordering::SeqCst);
     drop(suppliers);
     drop(rt);
     obs.after_cache = tree(&d.cache, port);
@@ -1514,12 +1596,12 @@ fn build_model_request(c: &Case, m: &Mod, prep: &Prepared) -> String {
         // write fault: from piece `j` of the first response on, every write to the temp file fails
         let fault_from: Option<usize> = if i == 0 && task == 0 && create_ok { c.wf.map(|j| j.min(prep.pieces[0].len())) } else { None };
         for (pi, p) in prep.pieces[i].iter().enumerate() {
-            let wok = fault_from.map(|j| pi < j).unwrap_or(true);
+            let wok = fault_from.map(|j| if c.wft { pi != j } else { pi < j }).unwrap_or(true);
             evs.push(format!("{task}C{}:{}@{idx}", hex(p), if wok { 1 } else { 0 }));
         }
         let complete = effective_body(r, &prep.bodies[i]).is_some();
         if complete {
-            let w = if fault_from.is_some() { 0 } else { 1 };
+            let w = if fault_from.is_some() && !c.wft { 0 } else { 1 };
             evs.push(format!("{task}E{w}{w}{}{}@{idx}", 1, if persist_ok { 1 } else { 0 }));
         } else {
             evs.push(format!("{task}N@{idx}"));
@@ -1633,7 +1715,7 @@ impl Engine for Cache {
     fn generate(&self, tier: Tier, rng: &mut Rng, emit: &mut dyn FnMut(String)) {
         let quick = tier == Tier::Quick;
         let mk = |m: u64, pre: &str, fs: &str, resps: Vec<RespSpec>, drop: &str, race: bool| {
-            show_case(&Case { m: m as usize, pre: pre.into(), fs: fs.into(), resps, drop: drop.into(), race, file: "sym".into(), wf: None })
+            show_case(&Case { m: m as usize, pre: pre.into(), fs: fs.into(), resps, drop: drop.into(), race, file: "sym".into(), wf: None, wft: false })
         };
         // 1. single server, every response kind, run to completion and dropped at every poll boundary
         let kinds = ["ok", "ok", "status", "corrupt", "unterminated", "empty", "cut", "cut"];
@@ -1737,6 +1819,7 @@ impl Engine for Cache {
                 race: false,
                 file: if rng.chance(2, 3) { "bin".into() } else { "pdb".into() },
                 wf: None,
+                wft: false,
             };
             emit(show_case(&c));
         }
@@ -1766,7 +1849,9 @@ impl Engine for Cache {
                 _ => rng.below(max_j as u64 + 1) as usize,
             };
             let pre = *rng.pick(&["-", "-", "-", "dir", "special", "dangling"]);
-            emit(show_case(&Case { m: m as usize, pre: pre.into(), fs: "-".into(), resps, drop: "-".into(), race: false, file: file.into(), wf: Some(j) }));
+            // transient: only the writes of piece j fail, later ones would succeed again
+            let wft = resps[0].split == "l" && j < np && rng.chance(1, 2);
+            emit(show_case(&Case { m: m as usize, pre: pre.into(), fs: "-".into(), resps, drop: "-".into(), race: false, file: file.into(), wf: Some(j), wft }));
         }
         // 7. bodies larger than the parser's initial 10 KiB window
         for _ in 0..(if quick { 6 } else { 120 }) {
@@ -1873,7 +1958,7 @@ impl Cache {
                 Some(n) => {
                     let body_len = effective_body(&c.resps[0], &prep.bodies[0]).map(|b| b.len()).unwrap_or(prep.bodies[0].len());
                     let after = if n < body_len { "a-body-write-fails" } else { "only-the-end-is-left" };
-                    res.tags.push(format!("fault:{}:{after}", c.file));
+                    res.tags.push(format!("fault:{}:{after}{}", c.file, if c.wft { ":transient" } else { "" }));
                     // a symbol download whose temp file can no longer be written must not produce an entry
                     // (the tee gives up on caching, or the URL note cannot be written)
                     if c.file == "sym" && full.node != initial_node_desc(&c, m) {
